@@ -429,5 +429,5 @@ func TestC06(t *testing.T) {
 	c := NewCtx(t, "C06")
 	neg := c06Negatives()
 	RunEnum(c, t, "conflicts-and-cycles", len(neg), func(i int) c06Case { return neg[i] }, c06Check, true)
-	RunRapid(c, t, Sub[c06Case]{Kind: "partition", Quick: 900, Thorough: 30_000, Gen: genC06, Check: c06Check})
+	RunRapid(c, t, Sub[c06Case]{Kind: "partition", Quick: 2500, Thorough: 30_000, Gen: genC06, Check: c06Check})
 }
